@@ -1,6 +1,8 @@
 package main
 
 import (
+	"encoding/json"
+	"os"
 	"fmt"
 	"math/rand"
 	"strconv"
@@ -16,7 +18,12 @@ import (
 //   dev show <seed> [op [tries]]
 func devShow(pool *sup.Pool, args []string) int {
 	s, _ := strconv.Atoi(args[0])
-	p, _, _ := gen.Generate(int64(s), nil)
+	var opt *gen.Opt
+	if os.Getenv("VERIF_OPT") == "pol" {
+		opt = polOpt(1)
+		opt.Pol = 30
+	}
+	p, _, _ := gen.Generate(int64(s), opt)
 	if len(args) == 1 {
 		fmt.Println(p.Text())
 		fmt.Println("R1:", typing.Check(p))
@@ -46,3 +53,25 @@ func devShow(pool *sup.Pool, args []string) int {
 }
 
 func init() { devCmds["show"] = devShow }
+
+// devTc: typecheck a file through the worker and print the raw result and C09's judgement.
+func devTc(pool *sup.Pool, args []string) int {
+	b, err := os.ReadFile(args[0])
+	if err != nil {
+		fmt.Println(err)
+		return 2
+	}
+	o := pool.Run([]sup.Job{{Kind: "typecheck", Text: string(b), TypeBudget: 5000000}}, nil)[0]
+	if o.Died() {
+		fmt.Println("DIED:", clip(o.Deaths[0], 3000))
+	}
+	if o.Res != nil {
+		j, _ := json.MarshalIndent(o.Res, "", " ")
+		fmt.Println(clip(string(j), 3000))
+	}
+	fmt.Println("post-death:", clip(o.PostDeath, 500))
+	fmt.Println("C09 judgement:", tcTotality(o))
+	return 0
+}
+
+func init() { devCmds["tc"] = devTc }
